@@ -11,6 +11,8 @@ WORK = "/tmp/mut_work" + MID
 FILES = ["zvt_builder/src/length.rs", "zvt_builder/src/encoding.rs", "zvt_builder/src/lib.rs", "zvt_derive/src/lib.rs", "zvt/src/io.rs",
          "zvt/src/sequences.rs", "zvt/src/feig/sequences.rs", "zvt/src/feig/packets/tlv.rs", "zvt/src/packets.rs", "zvt/src/packets/tlv.rs",
          "zvt_feig_terminal/src/feig.rs", "zvt_feig_terminal/src/stream.rs"]
+if os.environ.get("MUT_FILES"):
+    FILES = os.environ["MUT_FILES"].split(",")
 OPS = [
     ("rel", r" < ", " <= "), ("rel", r" <= ", " < "), ("rel", r" > ", " >= "), ("rel", r" >= ", " > "), ("rel", r" == ", " != "), ("rel", r" != ", " == "),
     ("arith", r" \+ ", " - "), ("arith", r" - ", " + "),
@@ -32,6 +34,8 @@ def candidates():
         lines = (src if cut < 0 else src[:cut]).split("\n")
         for i, l in enumerate(lines):
             s = l.strip()
+            if "AsyncReadExt" in s or "Pin<Box" in s or "dyn " in s or s.startswith("where") or s.startswith("impl<"):
+                continue
             if not s or s.startswith("//") or s.startswith("///") or s.startswith("use ") or s.startswith("#[derive") or "debug!(" in s or "warn!(" in s or "info!(" in s or "println!(" in s:
                 continue
             for kind, pat, rep in OPS:
